@@ -15,3 +15,12 @@ claim("C18", "Lean 4 theorems by finite case analysis (decide +kernel over all 2
       "exactly 0xFF00/0x0000 accepted as coil values, and the function code of any request/response the encoder accepts equals the first encoded byte "
       "(Props/C18.lean). The model's tables are tied to the crate exhaustively: every byte, every 16-bit coil value, every kind.",
       "For these finite functions the model/code tie is complete (exhaustive: true in the evidence).")
+
+claim("C20", "translator-generated cfg model + Lean 4 theorem by decide +kernel over all feature subsets + exhaustive cargo correspondence",
+      "Partial by nature. The cfg model (Gen/Cfg.lean) is REGENERATED from /repo's source on every run by tools/cfg_translate.py; the theorem cfg_consistent says that for every "
+      "subset of the features (with and without cfg(test)) no active code mentions a gated enum variant / type alias that is absent and every match over a gated enum stays exhaustive; "
+      "no_unsafe_no_std covers the source-level facts. Compilation proper and the test outcomes are observed by running cargo check / cargo test on every documented selection "
+      "(thorough: all 8 subsets), and the model's per-selection verdict is compared with cargo's.",
+      "Not carried by the model: type checking, borrow checking, name resolution beyond enum variants and aliases, test outcomes (observed, not proved). "
+      "The translator flags any cfg shape it does not understand as untranslatable, which fails the theorem.",
+      ref="DESIGN.md section 6, C20")
